@@ -121,6 +121,21 @@ class Run:
                     pass
         return alive
 
+    def workspace_pids(self):
+        """Processes started from this workspace other than the experiment processes: the job
+        processes, including those that have not written a begin record yet"""
+        import psutil
+
+        mine = {p.pid for p in self.procs}
+        found = []
+        for pr in psutil.process_iter(["pid", "cmdline"]):
+            try:
+                if pr.info["pid"] not in mine and any(str(self.ws / "jobs") in a for a in pr.info["cmdline"] or []):
+                    found.append(pr.info["pid"])
+            except Exception:
+                pass
+        return found
+
     def execute(self):
         sc = self.sc
         res = {"killed": None, "kills": [], "status": [], "stuck": False, "inconclusive": None}
@@ -140,7 +155,27 @@ class Run:
                     res["kills"].append({"at_records": len(self.loglines()), "sig": "KILL", "time": time.time() - t0, "crash": sc["crash"]})
                     res["killed"] = 0
                     time.sleep(sc.get("restart_delay", 0))
+                    if sc.get("orphan_pause"):
+                        # schedule owned by the harness: the job process the dead scheduler left
+                        # behind is slow to start (stopped, and resumed orphan_pause seconds
+                        # after the restart), so the restarted scheduler reaches the job first
+                        paused = self.workspace_pids()
+                        for pid in paused:
+                            try:
+                                os.kill(pid, signal.SIGSTOP)
+                            except ProcessLookupError:
+                                pass
+                        res["paused"] = len(paused)
+                        resume_at = time.time() + sc["orphan_pause"]
                     self.procs[0] = self.start(sc["procs"][0])
+                    if sc.get("orphan_pause"):
+                        while time.time() < resume_at:
+                            time.sleep(0.05)
+                        for pid in paused:
+                            try:
+                                os.kill(pid, signal.SIGCONT)
+                            except ProcessLookupError:
+                                pass
             if sc["kill"]:
                 k = sc["kill"]
                 rounds = 2 if k.get("second_kill") else 1
@@ -191,7 +226,7 @@ class Run:
                     os.killpg(p.pid, signal.SIGKILL)
                 except Exception:
                     pass
-            for pid in self.job_pids_alive():
+            for pid in set(self.job_pids_alive()) | set(self.workspace_pids()):
                 try:
                     os.kill(pid, signal.SIGKILL)
                 except Exception:
